@@ -253,7 +253,7 @@ type normFile struct {
 }
 
 type normalizer struct {
-	pkgVarW map[*types.Var]bool // package-level variables that some statement writes (lazily computed)
+	pkgVarW  map[*types.Var]bool // package-level variables that some statement writes (lazily computed)
 	w        *World
 	newFns   map[*types.Func]*Func
 	lg       *normLog
@@ -404,6 +404,7 @@ func (n *normalizer) run() map[string]normFile {
 			if !n.changed[file] {
 				continue
 			}
+			pruneUnusedImports(pkg.TypesInfo, file)
 			path := n.w.Fset.File(file.Pos()).Name()
 			text, lines, err := n.printFile(pkg, file, path)
 			if err != nil {
@@ -414,6 +415,70 @@ func (n *normalizer) run() map[string]normFile {
 		}
 	}
 	return out
+}
+
+// pruneUnusedImports drops the imports that no qualified identifier of the rewritten file mentions any more (a helper that was
+// the only user of a package has been inlined away or removed): the rewritten tree must still compile.
+func pruneUnusedImports(info *types.Info, file *ast.File) {
+	used := map[string]bool{}
+	ast.Inspect(file, func(n ast.Node) bool {
+		if se, ok := n.(*ast.SelectorExpr); ok {
+			if id, ok := se.X.(*ast.Ident); ok {
+				used[id.Name] = true
+			}
+		}
+		return true
+	})
+	nameOf := func(spec *ast.ImportSpec) string {
+		if spec.Name != nil {
+			return spec.Name.Name
+		}
+		if pn, ok := info.Implicits[spec].(*types.PkgName); ok {
+			return pn.Name()
+		}
+		p := strings.Trim(spec.Path.Value, "\"")
+		if i := strings.LastIndex(p, "/"); i >= 0 {
+			p = p[i+1:]
+		}
+		return p
+	}
+	drop := map[*ast.ImportSpec]bool{}
+	for _, d := range file.Decls {
+		gd, ok := d.(*ast.GenDecl)
+		if !ok || gd.Tok != token.IMPORT {
+			continue
+		}
+		var keep []ast.Spec
+		for _, sp := range gd.Specs {
+			is := sp.(*ast.ImportSpec)
+			nm := nameOf(is)
+			if nm != "_" && nm != "." && !used[nm] {
+				drop[is] = true
+				continue
+			}
+			keep = append(keep, sp)
+		}
+		gd.Specs = keep
+	}
+	if len(drop) == 0 {
+		return
+	}
+	var imps []*ast.ImportSpec
+	for _, is := range file.Imports {
+		if !drop[is] {
+			imps = append(imps, is)
+		}
+	}
+	file.Imports = imps
+	// an import declaration left empty is removed
+	var decls []ast.Decl
+	for _, d := range file.Decls {
+		if gd, ok := d.(*ast.GenDecl); ok && gd.Tok == token.IMPORT && len(gd.Specs) == 0 {
+			continue
+		}
+		decls = append(decls, d)
+	}
+	file.Decls = decls
 }
 
 func originFunc(f *types.Func) *types.Func {
